@@ -331,6 +331,53 @@ def twin_histories(kind):
     return mk
 
 
+def legacy_histories(kind, dh):
+    """stores carried over from an old release: records in the legacy gob format holding small values INCLUDING ZERO (which
+    gob does not transmit); what those records say was signed must still be refused"""
+    def mk(keys, rng):
+        accts, perms, admins = hist.std_config(keys, nacct=4, locked=False)
+        H = []
+        for val in (0, 1, 5):
+            if kind == "prop":
+                rec = gob_records(dh, ["prop %d" % val])[0]
+                raws = [(a.pk + b"\x03", rec) for a in accts[:2]]
+                n0, k1 = "n:" + hx(accts[0].path), "k:" + accts[1].pk.hex()
+                ops = [prop_line("client1", n0, val, 1), prop_line("client1", k1, val, 2)] + ([prop_line("client1", n0, val - 1, 1)] if val else []) + \
+                      [prop_line("client1", n0, val + 1, 1), prop_line("client1", n0, val + 1, 2), "export"]
+            else:
+                rec = gob_records(dh, ["att %d %d" % (val, val + 1)])[0]
+                raws = [(a.pk + b"\x02", rec) for a in accts[:2]]
+                n0, k1 = "n:" + hx(accts[0].path), "k:" + accts[1].pk.hex()
+                ops = [att_line("client1", n0, val, val + 1, 1), att_line("client1", k1, val, val + 1, 2), att_line("client1", n0, val + 1, val + 2, 1),
+                       att_line("client1", n0, val, val + 3, 2), "export"]
+            H.append({"cfg": hist.config_lines(accts, perms, admins, raws), "ops": ops, "accts": accts, "opts": {},
+                      "prior": {a.pk: val for a in accts[:2]}, "prior_kind": kind})
+        return H
+    return mk
+
+
+def judge_prior(pid):
+    """what the store's records (written by an earlier release) say was signed counts as signed: no proposal at or below the
+    recorded slot, no attestation with target at or below the recorded target (val + 1) or source below the recorded source"""
+    def fn(rep, dh, wd, all_h):
+        for h in all_h:
+            if "prior" not in h:
+                continue
+            for (k, key, data, sig, i, j, st) in hist.released(h["ops"], h["impl"], h["accts"]):
+                if key not in h["prior"]:
+                    continue
+                val = h["prior"][key]
+                f = data.split(",")
+                bad = (k == "prop" and h["prior_kind"] == "prop" and int(f[1]) <= val) or \
+                      (k == "att" and h["prior_kind"] == "att" and (int(f[6]) <= val + 1 or int(f[4]) < val))
+                if bad:
+                    rep.violation("signed-against-recorded-history", "a request at or below what the key's record in the store (legacy format) says was signed was signed again",
+                                  {"config": h["cfg"], "ops": h["ops"][:i + 1], "position": j, "recorded": val})
+                    return True
+        return False
+    return fn
+
+
 def judge_twin(pid):
     def fn(rep, dh, wd, all_h):
         for h in all_h:
@@ -361,7 +408,34 @@ def c01(rep, tier, seed, wd, replay):
         ks = [r[1] for r in rel if r[0] == "att"]
         return len(ks) != len(set(ks)) or any("D" in hist.states_of(l) for l in h["impl"] if l)
     run_hist_property(rep, tier, seed, wd, "C01", ("att", "atts", "atts0", "export", "restart", "twinatt"), opts, sizes,
-                      judges=[judge_slash("C01"), judge_twin("C01")], nontrivial=nontriv, extra_hist=twin_histories("att"))
+                      judges=[judge_slash("C01"), judge_twin("C01"), judge_prior("C01")], nontrivial=nontriv,
+                      extra_hist=lambda k_, r_: twin_histories("att")(k_, r_) + legacy_histories("att", build_harness(wd))(k_, r_))
+    if REPLAY is None or "rbatch" in REPLAY:
+        # batches far wider than any wallet here could hold, at the ruler (as the signer hands them over), over synthetic
+        # validator keys: whatever the store does with a batch of 10^5 entries, a vote conflicting with one just approved is refused
+        from common import run_impl
+        dh_ = build_harness(wd)
+        wk = hist.interop_keys(dh_)
+        wa, wp, wadm = hist.std_config(wk, nacct=2, locked=False)
+        nw = 105000 if tier != "thorough" else 330000
+        wl = REPLAY["rbatch"] if REPLAY is not None else ["rbatch %d 0 10 11 0" % nw, "rbatch %d 0 10 11 1" % nw, "rbatch %d 0 9 12 2" % nw,
+                                                         "rbatch %d 0 11 12 0" % nw, "rbatch 40 %d 11 12 1" % (nw - 10), "rbatch 1 7 11 12 2", "rbatch 33 0 12 13 0"]
+        wo, wcr, werr = run_impl(dh_, wd, ["reset"] + hist.config_lines(wa, wp, wadm) + wl, timeout=900)
+        want = REPLAY.get("want") if REPLAY is not None else [nw, 0, 0, nw, 30, 0, 33]
+        rep.cov["wide_rule_batches"] = {"entries": nw, "outputs": wo[1:]}
+        if wcr or len(wo) < 1 + len(wl):
+            rep.broken.append(("implementation-crash:rbatch", werr[-1500:], False))
+        else:
+            for l_, o_, w_ in zip(wl, wo[1:], want):
+                m_ = re.search(r"A=(\d+)", o_)
+                rep.count("rbatch|" + l_, True)
+                if not m_ or int(m_.group(1)) != w_:
+                    if m_ and int(m_.group(1)) > w_:
+                        rep.violation("wide-batch-conflict-approved", "in a batch of %d entries, %d votes conflicting with votes approved just before were approved (%s)" % (nw, int(m_.group(1)) - w_, o_),
+                                      {"rbatch": wl[:wl.index(l_) + 1], "want": want[:wl.index(l_) + 1]})
+                    else:
+                        rep.broken.append(("correspondence:rbatch(expected approvals)", json.dumps({"line": l_, "got": o_, "want_approved": w_}), False))
+                    break
     if REPLAY is None or "scenario" in REPLAY:
         # histories with concurrently issued requests: keys with high watermarks are re-asked for signed targets while
         # other keys advance (judged order-free: no two released attestations of one key are slashable)
@@ -384,7 +458,8 @@ def c02(rep, tier, seed, wd, replay):
         return len(ks) != len(set(ks)) or any(op.startswith("prop") and "D" in hist.states_of(l)
                                               for op, l in zip(h["ops"], h["impl"]))
     run_hist_property(rep, tier, seed, wd, "C02", ("prop", "export", "restart", "twinprop"), opts, sizes,
-                      judges=[judge_slash("C02"), judge_twin("C02")], nontrivial=nontriv, extra_hist=twin_histories("prop"))
+                      judges=[judge_slash("C02"), judge_twin("C02"), judge_prior("C02")], nontrivial=nontriv,
+                      extra_hist=lambda k_, r_: twin_histories("prop")(k_, r_) + legacy_histories("prop", build_harness(wd))(k_, r_))
     if REPLAY is None or "scenario" in REPLAY:
         # histories with concurrently issued requests: keys with high watermarks are re-asked for signed slots while
         # other keys advance (judged order-free: no two released proposals of one key share a slot)
@@ -537,7 +612,7 @@ def c06_faults(keys, rng):
     dom_r = (DOM_RANDAO + bytes(28)).hex()
     # "b": badger refuses writes (the state its Close puts it in first) while reads work; "c": shutdown really begins
     # (context cancelled, store closing) while the request stands at its state write, and the store is reopened afterwards
-    for fault in ["f0", "s", "S", "g0", "b", "c"]:
+    for fault in ["f0", "s", "S", "g0", "b", "c", "u"]:
         H.append({"cfg": cfg, "accts": accts, "opts": {}, "ops": [
             att_line("client1", ns[0], 1, 2, 0), att_line("client1", ns[0], 2, 3, 0, faults=fault),
             att_line("client1", ns[0], 2, 3, 1), att_line("client1", ns[0], 3, 4, 1), "export"]})
@@ -546,9 +621,13 @@ def c06_faults(keys, rng):
             prop_line("client1", ns[0], 2, 1), prop_line("client1", ns[0], 3, 1), "export"]})
     H.append({"cfg": cfg, "accts": accts, "opts": {}, "ops": [
         "sign %s - %s %s,%s g0" % (hx("client1"), ns[0], dom_r, r32), "sign %s - %s %s,%s -" % (hx("client1"), ns[0], dom_r, r32)]})
+    H.append({"cfg": ["nocache"] + cfg, "accts": accts, "opts": {}, "ops": [
+        "sign %s - %s %s,%s u" % (hx("client1"), ns[0], dom_r, r32), "sign %s - %s %s,%s -" % (hx("client1"), ns[0], dom_r, r32),
+        "msign %s - u %s" % (hx("client1"), ";".join("%s,%s,%s" % (ns[i], dom_r, r32) for i in range(3))),
+        "sign %s - k:%s %s,%s u" % (hx("client1"), accts[1].pk.hex(), dom_r, r32)]})
     for n in (1, 2, 3, 4):
         for pos in range(n):
-            for fault in ["f%d" % pos, "s", "S", "g%d" % pos] + (["b"] if pos == 0 else []) + (["c"] if n == 1 else []):
+            for fault in ["f%d" % pos, "s", "S", "g%d" % pos] + (["b", "u"] if pos == 0 else []) + (["c"] if n == 1 else []):
                 # ("c" only for one-entry batches: a multi-entry badger WriteBatch flushed into a closing store waits for ever
                 #  inside badger — a shutdown-window hang that releases nothing, outside C06)
                 items = ";".join(att_item(ns[i], 1, 2, i % 4) for i in range(n))      # distinct data per position
@@ -628,20 +707,20 @@ def c06(rep, tier, seed, wd, replay):
                 toks = [] if fl == "-" else fl.split(",")
                 if f[0] in ("att", "prop"):
                     key = hist.key_of_addr(f[3], h["accts"])
-                    onpath = any(t[0] in "fsSgbc" for t in toks) or (key, 2 if f[0] == "att" else 3) in bad
+                    onpath = any(t[0] in "fsSgbcu" for t in toks) or (key, 2 if f[0] == "att" else 3) in bad
                     if onpath and poss:
                         yield ("jfault %d" % (1 if ":" in poss[0] else 0), (i, 0, op[:200]))
                 elif f[0] == "atts":
                     items = f[4].split(";")
                     keys = [hist.key_of_addr(it.split(",")[0], h["accts"]) for it in items]
-                    whole = any(t[0] in "fsSbc" for t in toks) or (len(items) > 1 and any((k, 2) in bad for k in keys))
+                    whole = any(t[0] in "fsSbcu" for t in toks) or (len(items) > 1 and any((k, 2) in bad for k in keys))
                     for j, pos in enumerate(poss):
                         onpath = whole or ("g%d" % j) in toks or (j < len(keys) and (keys[j], 2) in bad)
                         if onpath:
                             yield ("jfault %d" % (1 if ":" in pos else 0), (i, j, op[:200]))
                 elif f[0] in ("sign", "msign"):
                     for j, pos in enumerate(poss):
-                        if ("g%d" % j) in toks:
+                        if ("g%d" % j) in toks or "u" in toks:
                             yield ("jfault %d" % (1 if ":" in pos else 0), (i, j, op[:200]))
 
     def judge(rep, dh, wd, all_h):
@@ -898,6 +977,59 @@ def c07(rep, tier, seed, wd, replay):
     OPNAME = {"att": "Sign beacon attestation", "prop": "Sign beacon proposal", "sign": "Sign"}
 
     judge_released = permission_judge("signature-released-without-permission", "a signature was released for an account the client's permissions do not grant")
+    # from the configuration file to the checker: main.go hands each (client, path) entry's operation list to the checker; the
+    # checker's answer depends on the ORDER of that list (first bearing item decides), so the list must arrive as written.
+    # The built dirk binary's --show-permissions prints what main.go parsed (it shares that code with the daemon's start-up).
+    if REPLAY is None or "permissions_yaml" in REPLAY:
+        from common import sh as _sh
+        dbin = build_dirk(wd)
+        r_ = rng.fork()
+        OPS_ = ["All", "None", "Sign", "~Sign", "Sign beacon attestation", "~Sign beacon attestation", "Sign beacon proposal", "~Sign beacon proposal",
+                "Access account", "~Access account", "Create account", "Lock wallet", "~Unlock account"]
+        for ci in range(tier_sizes(tier, 6, 60)):
+            if REPLAY is not None:
+                ytxt = REPLAY["permissions_yaml"]
+                cfgp = None
+            else:
+                cfgp = {}
+                for cl in ["client%d" % q for q in range(1 + r_.below(3))]:
+                    cfgp[cl] = {}
+                    for pa in r_.shuffle(["Wallet 1", "Wallet 2/Acc.*", "wallet3/x|y", "W4"])[:1 + r_.below(3)]:
+                        cfgp[cl][pa] = r_.choice([["~Sign beacon proposal", "All"], ["None", "All"], ["~Sign", "Sign"], ["Sign", "~Sign", "Access account", "Sign"]] +
+                                                 [[r_.choice(OPS_) for _ in range(1 + r_.below(5))] for _ in range(3)])
+                ytxt = "permissions:\n" + "".join("  %s:\n" % cl + "".join("    %s: %s\n" % (json.dumps(pa), json.dumps(ops)) for pa, ops in pm.items()) for cl, pm in cfgp.items())
+            d_ = os.path.join(wd, "showperm-%d" % ci)
+            os.makedirs(d_, exist_ok=True)
+            open(os.path.join(d_, "dirk.yml"), "w").write(ytxt)
+            rc_, o_, e_ = _sh([dbin, "--base-dir", d_, "--show-permissions"], timeout=120)
+            got = {}
+            cur = None
+            for l in o_.splitlines():
+                m1 = re.match(r'Permissions for "(.*)":', l)
+                m2 = re.match(r' - accounts matching the path "(.*)" can carry out (all operations|operations (.*))$', l)
+                if m1:
+                    cur = m1.group(1)
+                elif m2 and cur is not None:
+                    got[(cur, m2.group(1))] = ["All"] if m2.group(2) == "all operations" else m2.group(3).split(", ")
+            if REPLAY is not None:
+                cfgp = REPLAY["expected"]
+            rep.count("showperm|" + ytxt, True)
+            bad_ = None
+            for cl, pm in cfgp.items():
+                for pa, ops in pm.items():
+                    g_ = got.get((cl.lower(), pa.lower()))
+                    if g_ != ops and bad_ is None:
+                        bad_ = (cl, pa, ops, g_)
+            if rc_ != 0:
+                rep.broken.append(("tie:show-permissions(the dirk binary did not print the permissions)", (o_ + e_)[-800:], False))
+                break
+            if bad_:
+                rep.violation("permissions-reordered-by-configuration-parsing", "the operation list main.go hands to the checker for %r / %r is %r, the configuration says %r (order decides)" % (bad_[0], bad_[1], bad_[3], bad_[2]),
+                              {"permissions_yaml": ytxt, "expected": cfgp, "parsed": {"%s|%s" % k_: v_ for k_, v_ in got.items()}})
+                break
+            if REPLAY is not None:
+                break
+        rep.cov["configurations_through_main_go"] = ci + 1
     # listings are served operations too ('Access account'): nothing may be listed that the specification does not grant
     # (several listings per scenario: the lister walks Go maps, whose order changes from call to call)
     import listing
@@ -967,6 +1099,7 @@ def run_imp_scenarios(rep, dh, wd, scen, label="imp"):
             if crashed:
                 rep.broken.append(("implementation-crash:" + label, err, False))
     first_bad = None
+    first_live = None
     jl, jidx = [], []
     for si, (cfg, ops, impl, model) in enumerate(results):
         overlap = False
@@ -977,6 +1110,10 @@ def run_imp_scenarios(rep, dh, wd, scen, label="imp"):
                 first_bad = (si, i, op, il, ml)
             k = op.split()[0]
             rep.dist("op", k)
+            if k == "importlive":
+                rep.dist("import_on_live_store", il)
+                if il.strip() == "ok" and first_live is None:
+                    first_live = (si, i)
             if k == "import":
                 rep.dist("import_result", il)
                 f = op.split()
@@ -997,6 +1134,12 @@ def run_imp_scenarios(rep, dh, wd, scen, label="imp"):
         rep.count(json.dumps(ops), overlap)
     out = run_model(jl)
     found = False
+    if first_live is not None:
+        si, i = first_live
+        cfg, ops, impl, model = results[si]
+        rep.violation("import-accepted-on-live-store", "the import command reported success while an instance was active on the same store: the running instance "
+                      "neither sees what was imported nor keeps it", {"config": cfg, "ops": ops[:i + 2], "impl": impl[:i + 2]})
+        found = True
     for meta, o in zip(jidx, out):
         if meta is None or o.strip() == "ok":
             continue
@@ -1043,6 +1186,10 @@ def c10(rep, tier, seed, wd, replay):
     scen.append((cfg, ["export", imp.import_line(G, ("5", G), [("0x" + k0.hex(), ["3"], [("7", "9")])]), "export"]))
     scen.append((cfg, ["export", imp.import_line(G, ("5", G), [("0x" + k0.hex(), ["30"], []), ("0x" + k0.hex(), ["12"], [("8", "9")])]), "export"]))
     scen.append((["begin"], ["export", imp.import_line(G, ("5", G), [("0x" + k0.hex(), ["30"], [("1", "2")]), ("0x" + k0.hex(), ["12"], [])]), "export"]))
+    # the import command while an instance is active on the store: refused, nothing changes
+    live_ = imp.import_line(G, ("5", G), [("0x" + k0.hex(), ["100"], [("50", "60")])]).replace("import ", "importlive ", 1)
+    scen.append((cfg, ["export", live_, "export", "probeprop %s 50" % k0.hex(), imp.import_line(G, ("5", G), [("0x" + k0.hex(), ["100"], [])]), "export"]))
+    scen.append((["begin"], ["export", live_, "export"]))
     # large stores (more records than one iterator prefetch of the storage engine): an import of old history for a
     # few keys must leave every key's protection where it was
     for nk in ([60, 130] if tier != "thorough" else [51, 60, 101, 130, 257]):
@@ -1111,12 +1258,18 @@ def c08(rep, tier, seed, wd, replay):
     dh = build_harness(wd)
     big = tier == "thorough"
     nacct = 600 if big else 300
-    keys = hist.interop_keys(dh, nacct + 2)
+    keys = hist.interop_keys(dh, nacct + 6)
     rng = Rng(seed * 31337 + 8)
     accts = [hist.Acct("Wallet 1" if i % 2 == 0 else "Wallet 2", "Account %d" % i, keys[i]) for i in range(nacct)]
     locked = hist.Acct("Wallet 1", "Locked", keys[nacct], unlockable=False)
+    # two DISTRIBUTED accounts (a share each): the first's composite (validator) key is nobody's account key, the second's is
+    # the key of ordinary account 0 (a validator being moved from a single key to a threshold set-up).  A request addressed
+    # by a public key is answered by the account whose OWN key that is, or refused.
+    comp1 = keys[nacct + 3]
+    dist1 = hist.Acct("DWallet", "Share 1", keys[nacct + 2], dist="C=%s;1=signer-test01:8881;2=signer-test02:8882;3=signer-test03:8883" % comp1.hex())
+    dist2 = hist.Acct("DWallet", "Share 2", keys[nacct + 4], dist="C=%s;1=signer-test01:8881;2=signer-test02:8882;3=signer-test03:8883" % keys[0].hex())
     perms = [("c", ".*", ["All"])]
-    cfg = hist.config_lines(accts + [locked], perms, ["10.0.0.1"])
+    cfg = hist.config_lines(accts + [locked, dist1, dist2], perms, ["10.0.0.1"])
     sizes = [1, 2, 3, 15, 16, 17, 33, 64, 65] + ([127, 128, 129] if big else [])
     big_sizes = [257, 300] + ([255, 256, 513, 600] if big else [])
     ops = []
@@ -1189,6 +1342,14 @@ def c08(rep, tier, seed, wd, replay):
             ops.append("msign %s - - %s" % (hx("c"), ";".join(mi)))
     ops_big = ops[n_small_ops:]
     ops = ops[:n_small_ops]
+    # requests addressed by the composite keys and by the share keys of the distributed accounts
+    rr_ = lambda: bytes(rng.below(256) for _ in range(32)).hex()
+    for kx in (comp1, keys[0], dist1.pk, dist2.pk):
+        ops.append("sign %s - k:%s %s,%s -" % (hx("c"), kx.hex(), hist.dom32(DOM_RANDAO, rng).hex(), rr_()))
+        ops.append("att %s - k:%s %s,%d,%d,%s,%d,%s,%d,%s -" % (hx("c"), kx.hex(), hist.dom32(DOM_ATT, rng).hex(), 3, 1, rr_(), 900, rr_(), 901, rr_()))
+        ops.append("prop %s - k:%s %s,%d,1,%s,%s,%s -" % (hx("c"), kx.hex(), hist.dom32(DOM_PROP, rng).hex(), 900, rr_(), rr_(), rr_()))
+    ops.append("msign %s - - %s" % (hx("c"), ";".join("k:%s,%s,%s" % (kx.hex(), hist.dom32(DOM_RANDAO, rng).hex(), rr_()) for kx in (keys[0], dist1.pk, keys[1], dist2.pk))))
+    ops.append("msign %s - - %s" % (hx("c"), ";".join("k:%s,%s,%s" % (kx.hex(), hist.dom32(DOM_RANDAO, rng).hex(), rr_()) for kx in (keys[1], comp1, keys[2]))))
     for i in range(40 if not big else 300):
         a = rng.choice(accts)
         rt = [bytes(rng.below(256) for _ in range(32)).hex() for _ in range(3)]
@@ -1198,16 +1359,16 @@ def c08(rep, tier, seed, wd, replay):
         ops.append("sign %s - %s %s,%s -" % (hx("c"), adr(a), hist.dom32(DOM_RANDAO, rng).hex(), rt[0]))
         epoch += 2
     all_h = []
-    runs = [({"cfg": cfg, "ops": ops, "accts": accts + [locked], "opts": {}, "gomaxprocs": p}, "ssz") for p in ([1, 2, 3, 16] if not big else [1, 2, 3, 16, 128])]
-    runs.append(({"cfg": cfg, "ops": ops_big, "accts": accts + [locked], "opts": {}, "gomaxprocs": 3}, "ssz-big"))
+    runs = [({"cfg": cfg, "ops": ops, "accts": accts + [locked, dist1, dist2], "opts": {}, "gomaxprocs": p}, "ssz") for p in ([1, 2, 3, 16] if not big else [1, 2, 3, 16, 128])]
+    runs.append(({"cfg": cfg, "ops": ops_big, "accts": accts + [locked, dist1, dist2], "opts": {}, "gomaxprocs": 3}, "ssz-big"))
     # the same requests through the real gRPC API (TLS, interceptors, handlers): whatever the handlers do with a batch
     # (splitting, copying results back) must keep entry i the answer to request i
     for p in ([4] if not big else [2, 16]):
-        runs.append(({"cfg": ["viagrpc"] + cfg, "ops": ops_big + ops[:12], "accts": accts + [locked], "opts": {}, "gomaxprocs": p, "viagrpc": True}, "ssz-grpc"))
+        runs.append(({"cfg": ["viagrpc"] + cfg, "ops": ops_big + ops[:12], "accts": accts + [locked, dist1, dist2], "opts": {}, "gomaxprocs": p, "viagrpc": True}, "ssz-grpc"))
     # the same with every service logging at trace level (to a discarding writer): whatever code runs only when a log entry is
     # enabled must not touch what is signed — directly and through the gRPC API
-    runs.append(({"cfg": ["tracelog"] + cfg, "ops": ops, "accts": accts + [locked], "opts": {}, "gomaxprocs": 2}, "ssz-trace"))
-    runs.append(({"cfg": ["tracelog", "viagrpc"] + cfg, "ops": ops, "accts": accts + [locked], "opts": {}, "gomaxprocs": 3, "viagrpc": True}, "ssz-grpc-trace"))
+    runs.append(({"cfg": ["tracelog"] + cfg, "ops": ops, "accts": accts + [locked, dist1, dist2], "opts": {}, "gomaxprocs": 2}, "ssz-trace"))
+    runs.append(({"cfg": ["tracelog", "viagrpc"] + cfg, "ops": ops, "accts": accts + [locked, dist1, dist2], "opts": {}, "gomaxprocs": 3, "viagrpc": True}, "ssz-grpc-trace"))
     from concurrent.futures import ThreadPoolExecutor as _TPE
 
     def _run(hr):
@@ -1243,7 +1404,7 @@ def c08(rep, tier, seed, wd, replay):
         res_ = conc_.parse_go(io_[1 + 1 + len(cops)])
         ops_ = [op for _, op in cops]
         mo_ = _rm(["reset"] + cfg + ops_)
-        h = {"cfg": cfg, "ops": ops_, "accts": accts + [locked], "opts": {}, "gomaxprocs": p, "impl": [x[2] for x in res_], "model": mo_[1:], "bad": [],
+        h = {"cfg": cfg, "ops": ops_, "accts": accts + [locked, dist1, dist2], "opts": {}, "gomaxprocs": p, "impl": [x[2] for x in res_], "model": mo_[1:], "bad": [],
              "concurrent": True}
         all_h.append(h)
         rep.dist("concurrent_signing_requests", "GOMAXPROCS=%d" % p, len(cops))
@@ -1388,6 +1549,20 @@ def c09(rep, tier, seed, wd, replay):
             cfg_ = ["nocache"] + hist.config_lines(accts_, [("client1", "Wallet 1", ["All"])], [])
             items = ";".join(att_item("n:" + hx(a_.path), 1, 2 + q, 0) for a_ in r2.shuffle(accts_))
             ops_ = ["atts %s - - %s" % (hx("client1"), items)] + [att_line("client1", "n:" + hx(a_.path), 1, 9 + q, 0) for a_ in accts_[:2]]
+            H.append({"cfg": cfg_, "ops": ops_, "accts": accts_, "opts": {}})
+        # wide batches over validators with DIFFERENT histories (half of them have attested far ahead one at a time): each
+        # entry is judged against its own key's history, whatever order the previous states are fetched or returned in
+        for q in range(2 if tier != "thorough" else 8):
+            r2 = rng_.fork()
+            nw_ = 48 if q % 2 == 0 else 70
+            wk_ = hist.interop_keys(build_harness(wd), 80)
+            accts_ = [hist.Acct("Wallet 1", "Account %d" % i_, wk_[i_]) for i_ in range(nw_)]
+            cfg_ = hist.config_lines(accts_, [("client1", "Wallet 1", ["All"])], [])
+            ahead = set(r2.shuffle(list(range(nw_)))[:nw_ // 2])
+            ops_ = [att_line("client1", "n:" + hx(accts_[i_].path), 20 + i_ % 5, 30 + i_ % 7, 0) for i_ in sorted(ahead)]
+            order_ = r2.shuffle(accts_)
+            ops_.append("atts %s - - %s" % (hx("client1"), ";".join(att_item(r2.choice(["n:" + hx(a_.path), "k:" + a_.pk.hex()]), 8, 10, 1) for a_ in order_)))
+            ops_.append("atts %s - - %s" % (hx("client1"), ";".join(att_item("n:" + hx(a_.path), 10, 12, 2) for a_ in r2.shuffle(accts_))))
             H.append({"cfg": cfg_, "ops": ops_, "accts": accts_, "opts": {}})
         return H
 
@@ -1691,7 +1866,8 @@ def run_conc(rep, dh, wd, keys, rng, n_steered, n_soak, soak_size, gomaxprocs, w
     import conc
     from common import run_impl, run_model
     accts, perms, admins = hist.std_config(keys, nacct=5)
-    cfg = hist.config_lines(accts, perms, admins)
+    # (the locker has served 1500 other keys before each scenario: whatever it does once it holds many entries applies)
+    cfg = ["lockwarm 1500"] + hist.config_lines(accts, perms, admins)
     found = False
     for p in gomaxprocs:
         env = {"GOMAXPROCS": str(p)} if p else None
@@ -1733,6 +1909,11 @@ def run_conc(rep, dh, wd, keys, rng, n_steered, n_soak, soak_size, gomaxprocs, w
                 if to:
                     rep.violation("deadlock", "concurrent requests did not all complete within the watchdog: " + to[0],
                                   {"config": cfg, "scenario": conc.scenario_lines(prefix, parks, cops, workers), "gomaxprocs": p})
+                    found = True
+                elif crashed and ("panic:" in err or "fatal error:" in err):
+                    # a Go panic / runtime error inside the instance while this scenario ran: the scenario is the failing input
+                    rep.violation("crash-under-concurrency", "the instance died while serving concurrent requests: " + (err[err.find("panic:"):] if "panic:" in err else err[err.find("fatal error:"):])[:160].replace("\n", " "),
+                                  {"config": cfg, "scenario": conc.scenario_lines(prefix, parks, cops, workers), "gomaxprocs": p, "stderr": err[-1500:]})
                     found = True
                 elif crashed:
                     rep.broken.append(("implementation-crash:conc", err, False))
@@ -1814,20 +1995,7 @@ def lock_trace_histories(rep, tier, seed, wd, pid):
     return first_bad, dh, keys, rng
 
 
-def c04(rep, tier, seed, wd, replay):
-    rep.cov["rule"] = ("(a) for seeded request histories the recorded sequence of locker calls and store accesses of every request "
-                       "(PreLock, Lock k.., PostLock, fetches, store, Unlock .. reversed; none for refused/duplicate requests) must equal "
-                       "the Lean model's; (b) steered schedules: 2-5 concurrent single/batch/proposal requests over shared keys, a request "
-                       "parked between its read and its write so an unprotected rival would overlap; invocation/response times recorded; the "
-                       "Lean driver searches for an order compatible with real time in which the sequential model reproduces verdicts and "
-                       "final export (linearizability), and judges released signatures for slashability; (c) soak: 150 mixed requests on "
-                       "32 workers; non-trivial = schedule or trace with at least one lock acquisition")
-    rep.assumptions += ["Go's sync.Mutex and scheduler are modelled (any interleaving of enabled steps); real interleavings are sampled and steered, only the model's are covered universally",
-                        "badger Update / WriteBatch.Flush are atomic"]
-    prove(rep, "C04")
-    first_bad, dh, keys, rng = lock_trace_histories(rep, tier, seed, wd, "C04")
-    ns, nsoak, ssize = tier_sizes(tier, (60, 2, 150), (1200, 10, 400))
-    found = run_conc(rep, dh, wd, keys, rng, ns, nsoak, ssize, [None] if tier != "thorough" else [2, 16, 128], n_cross=2 if tier != "thorough" else 10)
+def startup_stage(rep, dh, wd, keys, found, first_bad=None):
     # start-up: the store already holds records (old gob format / current format / none) and the first state write after the
     # rules service starts stalls (slow disk).  Whatever else the service does with the store while it starts must not undo
     # what the first requests record: a request conflicting with one answered earlier is refused.
@@ -1844,6 +2012,16 @@ def c04(rep, tier, seed, wd, replay):
                   [att_line("client1", n_, 6, 7, 1) for n_ in ns_] + [prop_line("client1", n_, 6, 1) for n_ in ns_] + \
                   [att_line("client1", n_, 5, 8, 1) for n_ in ns_] + [att_line("client1", n_, 7, 8, 0) for n_ in ns_] + ["export"]
             SH.append({"cfg": cfg, "ops": ops, "accts": accts, "opts": {}, "label": "startup-%s-stall%d" % (label, stall)})
+    # the same with the store's maintenance goroutine running (server.rules.periodic-pruning: true) on a store that holds
+    # several hundred more old-format records of other validators
+    fill = [(bytes([0xA2]) + bytes(45) + bytes([q >> 8, q & 255]) + b"\x02", gob_a) for q in range(400)] + \
+           [(bytes([0xA2]) + bytes(45) + bytes([q >> 8, q & 255]) + b"\x03", gob_p) for q in range(400)]
+    raws_ = [(a.pk + b"\x02", gob_a) for a in accts[:3]] + [(a.pk + b"\x03", gob_p) for a in accts[:3]] + fill
+    cfg_ = ["pruning"] + hist.config_lines(accts, perms, admins, raws_)
+    ops_ = [att_line("client1", n_, 6, 7, 0) for n_ in ns_] + [prop_line("client1", n_, 6, 0) for n_ in ns_] + ["pause 1500"] + \
+           [att_line("client1", n_, 6, 7, 1) for n_ in ns_] + [prop_line("client1", n_, 6, 1) for n_ in ns_] + ["restart"] + \
+           [att_line("client1", n_, 6, 7, 2) for n_ in ns_] + [prop_line("client1", n_, 6, 2) for n_ in ns_] + [att_line("client1", n_, 7, 8, 0) for n_ in ns_]
+    SH.append({"cfg": cfg_, "ops": ops_, "accts": accts, "opts": {}, "label": "startup-legacy-pruning"})
     if REPLAY is not None:
         rh = replay_history()
         SH = [rh] if rh and any(o.startswith("pause") for o in rh["ops"]) else []
@@ -1863,6 +2041,24 @@ def c04(rep, tier, seed, wd, replay):
                 i, op, il, ml = h["bad"][0]
                 rep.broken.append(("correspondence:startup(model vs implementation on a pre-filled store)",
                                    json.dumps({"config": h["cfg"], "ops": h["ops"][:i + 1], "impl": il[:300], "model": ml[:300]}), found))
+    return found
+
+
+def c04(rep, tier, seed, wd, replay):
+    rep.cov["rule"] = ("(a) for seeded request histories the recorded sequence of locker calls and store accesses of every request "
+                       "(PreLock, Lock k.., PostLock, fetches, store, Unlock .. reversed; none for refused/duplicate requests) must equal "
+                       "the Lean model's; (b) steered schedules: 2-5 concurrent single/batch/proposal requests over shared keys, a request "
+                       "parked between its read and its write so an unprotected rival would overlap; invocation/response times recorded; the "
+                       "Lean driver searches for an order compatible with real time in which the sequential model reproduces verdicts and "
+                       "final export (linearizability), and judges released signatures for slashability; (c) soak: 150 mixed requests on "
+                       "32 workers; non-trivial = schedule or trace with at least one lock acquisition")
+    rep.assumptions += ["Go's sync.Mutex and scheduler are modelled (any interleaving of enabled steps); real interleavings are sampled and steered, only the model's are covered universally",
+                        "badger Update / WriteBatch.Flush are atomic"]
+    prove(rep, "C04")
+    first_bad, dh, keys, rng = lock_trace_histories(rep, tier, seed, wd, "C04")
+    ns, nsoak, ssize = tier_sizes(tier, (60, 2, 150), (1200, 10, 400))
+    found = run_conc(rep, dh, wd, keys, rng, ns, nsoak, ssize, [None] if tier != "thorough" else [2, 16, 128], n_cross=2 if tier != "thorough" else 10)
+    found = startup_stage(rep, dh, wd, keys, found, first_bad)
     if first_bad is not None:
         h, (i, op, il, ml) = first_bad
         rep.broken.append(("correspondence:lock-trace(model lock protocol vs ruler+locker calls)",
@@ -2056,6 +2252,10 @@ def c03(rep, tier, seed, wd, replay):
                               {"config": cfg, "ops": hists[hi], "kill_at_point": j, "replied": k, "signature_for": data[:120]})
                 found = True
                 break
+    # start-up on stores carried over from an earlier release (see startup_stage): what the first requests after a start
+    # record must still be there after the next restart
+    if REPLAY is None or any(o.startswith("pause") for o in REPLAY.get("ops", [])):
+        found = startup_stage(rep, dh, wd, keys, found, first_bad)
     rep.cov["kill_restart_cycles"] = len(results)
     rep.cov["hook_points"] = total_points
     rep.cov["exhaustive"] = True
@@ -2997,7 +3197,7 @@ THEOREMS.update({
                                "Dirk.C09_live_prop_rule", "Dirk.C09_live_att", "Dirk.C09_live_prop", "Dirk.C09_kernel_is_source"]),
     "C11": ("Dirk.Props.C11", ["Dirk.C11_codec_roundtrip", "Dirk.C11_restart", "Dirk.C11_import_export_same_decisions",
                                "Dirk.C11_export_exact", "Dirk.C11_last_is_highest"]),
-    "C10": ("Dirk.Props.C10", ["Dirk.C10_never_lowers", "Dirk.C10_protects", "Dirk.C10_composes", "Dirk.C10_range_any", "Dirk.C10_import_command_keeps_invariants", "Dirk.C10_kernel_is_source", "Dirk.C10_refuses_after_prop",
+    "C10": ("Dirk.Props.C10", ["Dirk.C10_never_lowers", "Dirk.C10_protects", "Dirk.C10_composes", "Dirk.C10_range_any", "Dirk.C10_import_command_keeps_invariants", "Dirk.C10_kernel_is_source", "Dirk.facts_store_options", "Dirk.C10_refuses_after_prop",
                                "Dirk.C10_refuses_after_att", "Dirk.C10_bad_metadata", "Dirk.C10_parse_error_no_change",
                                "Dirk.C10_legacy_counterexample"]),
     "C07": ("Dirk.Props.C07Refine", ["Dirk.C07_kernel_is_source", "Dirk.C07_check_refines_spec", "Dirk.C07_served_has_bearing", "Dirk.C07_scan_eq_spec", "Dirk.C07_default_deny", "Dirk.C07_unknown_client", "Dirk.C07_no_identity",
